@@ -486,7 +486,7 @@ class System:
         self._g.attrs["nodes"][comp._params["name"]] = cidx
         self._g.attrs["phase_conf"][comp._params["name"]] = {}
         self._g.attrs["groups"][comp._params["name"]] = group
-        self._g.attrs["pnames"][cidx] = plist
+        self._g.attrs["pnames"][cidx] = [self._g[i]._params["name"] for i in pidx]
         self._g.attrs["rails"][comp._params["name"]] = rail
         if len(pidx) > 1:
             for p in range(1, len(pidx), 1):
@@ -620,6 +620,12 @@ class System:
         # delete old rail and set new
         del [self._g.attrs["rails"][name]]
         self._g.attrs["rails"][comp._params["name"]] = rail
+        # keep the PMux input list in step with a changed name
+        for k in self._g.attrs["pnames"]:
+            self._g.attrs["pnames"][k] = [
+                comp._params["name"] if p == name else p
+                for p in self._g.attrs["pnames"][k]
+            ]
 
     def del_comp(self, name: str, *, del_childs: bool = True):
         """Delete component.
@@ -680,8 +686,13 @@ class System:
         # restore links between new parent and childs, unless deleted
         if not del_childs:
             if childs[eidx] != -1:
+                pname = self._g[parents[eidx][0]]._params["name"]
                 for c in childs[eidx]:
                     self._g.add_edge(parents[eidx][0], c, None)
+                    # a PMux child takes the new parent at the same input position
+                    self._g.attrs["pnames"][c] = [
+                        pname if p == name else p for p in self._g.attrs["pnames"][c]
+                    ]
 
     def tree(self, name=""):
         """Print the tree structure of the system.
